@@ -135,6 +135,7 @@ struct State {
   std::vector<std::thread> th;
   std::set<int> started;
   std::set<const void*> slots;
+  std::map<const void*, int> slot_user;  // thread-local resource -> simulated thread that used it last
   bool moved_since_wave = false;
   char foreign[64];
 };
@@ -349,7 +350,13 @@ void* api_alloc(Res& R, size_t bytes, unsigned lg, int variant, bool obj = false
   // placement of a new page array (probe only; reads private state)
   bool inspect = variant != V_TEMPLATE;
   Excl* loc = nullptr; void* pa0 = nullptr; uintptr_t fe0 = 0;
-  if (inspect) { loc = local_of(R); pa0 = loc->_last_page_array; fe0 = (uintptr_t)loc->_free_end; }
+  if (inspect) {
+    loc = local_of(R); pa0 = loc->_last_page_array; fe0 = (uintptr_t)loc->_free_end;
+    if (R.kind != 0) {
+      auto ins = S->slot_user.insert({loc, tid()});
+      if (!ins.second && ins.first->second != tid()) { probe("thread_local_resource_inherited_by_new_thread"); ins.first->second = tid(); }
+    }
+  }
   void* p = nullptr;
   if (variant == V_TEMPLATE) {
     switch (lg) {
@@ -502,6 +509,17 @@ void check_contains(Res& R) {
 }
 
 void check_group_released(int g, bool moved, const char* what) {
+  if (S->ctxk == 1) {
+    // after `target = std::move(source)` and the destruction of the source,
+    // what the target held before must be gone (swapped into the source, or
+    // released by the assignment): if it is all still there, nothing was transferred
+    bool any = false;
+    for (auto& o : S->objs) if (o.group == g && o.destroyed == 0) any = true;
+    for (auto& kv : S->pages.pages) if (kv.second.out && kv.second.group == g) any = true;
+    for (auto& kv : S->up.blocks) if (kv.second.live && kv.second.group == g) any = true;
+    if (any)
+      fail("move-assign-not-transferred", "source-destruction", "after `target = std::move(source)` and the destruction of the source, the target still holds the pages / oversize blocks / registered objects it held before the assignment: the assignment exchanged nothing");
+  }
   for (auto& o : S->objs) {
     if (o.group != g) continue;
     if (o.destroyed == 0) fail("destructor", "not-run", "%s: a registered destructor (object at %#lx) did not run", what, (unsigned long)o.p);
@@ -586,6 +604,27 @@ Res* make_res(int kind, bool ctor_variant) {
   return R;
 }
 
+// Destroy a moved-from source. For the shared kinds its storage is reused at
+// once for an unrelated resource object of the same type (a legal thing for a
+// client to do: optional<>, vector slot, pool of resources) configured with
+// allocators that nobody may ever call: whatever still refers to the old
+// object after the move ends up there instead of in freed memory.
+void destroy_moved_from(Res* src) {
+  unregister_slots(*src);
+  if (src->kind == 0) { delete src->ex; delete src; return; }
+  Res* z = new Res(); z->kind = src->kind; z->group = src->group;
+  if (src->kind == 1) {
+    void* mem = src->sh; src->sh->~Shared();
+    z->sh = new (mem) Shared(); z->sh->set_page_allocator(S->trap_pages); z->sh->set_upstream(S->trap_up);
+  } else {
+    void* mem = src->sw; src->sw->~Swiss();
+    z->sw = new (mem) Swiss(); z->sw->set_page_allocator(S->trap_pages); z->sw->set_upstream(S->trap_up); z->sh = z->sw;
+  }
+  S->zombies.push_back(z);
+  delete src;
+  probe("source_storage_reused");
+}
+
 void do_move_construct(int flags) {
   join_all();
   verify_all("before-move");
@@ -603,26 +642,8 @@ void do_move_construct(int flags) {
   int empty = new_group();
   src->group = empty;
   S->releasing = empty; S->ctx = "destruction of the moved-from source of a move construction"; S->ctxk = 2;
-  unregister_slots(*src);
-  if ((flags & 1) && src->kind != 0) {
-    // The storage of the destroyed source is reused for an unrelated resource
-    // object (a legal thing for a client to do: optional<>, vector slot, pool of
-    // resources) that is configured with allocators nobody may ever call.
-    Res* z = new Res(); z->kind = src->kind; z->group = empty;
-    if (src->kind == 1) {
-      void* mem = src->sh; src->sh->~Shared();
-      z->sh = new (mem) Shared(); z->sh->set_page_allocator(S->trap_pages); z->sh->set_upstream(S->trap_up);
-    } else {
-      void* mem = src->sw; src->sw->~Swiss();
-      z->sw = new (mem) Swiss(); z->sw->set_page_allocator(S->trap_pages); z->sw->set_upstream(S->trap_up); z->sh = z->sw;
-    }
-    S->zombies.push_back(z);
-    delete src;
-    probe("source_storage_reused");
-  } else {
-    if (src->kind == 0) delete src->ex; else if (src->kind == 1) delete src->sh; else delete src->sw;
-    delete src;
-  }
+  (void)flags;
+  destroy_moved_from(src);
   S->releasing = -1; S->ctxk = 0;
   S->cur = dst;
   S->moved_since_wave = true;
@@ -671,10 +692,11 @@ void do_move_assign(int pre, int flags) {
   }
   S->releasing = L; S->ctx = "destruction of the moved-from source of a move assignment"; S->ctxk = 1;
   set_crash_site("move-assign-source-destructor");
-  destroy_res(src);
+  destroy_moved_from(src);
   set_crash_site(nullptr);
-  S->releasing = -1; S->ctxk = 0;
+  S->releasing = -1;
   check_group_released(L, false, "move assignment followed by destruction of the source");
+  S->ctxk = 0;
   S->cur = dst;
   S->moved_since_wave = true;
   verify_all("after-move");
@@ -722,6 +744,7 @@ void do_alloc_op(Res& R, const Op& op) {
 void start_wave(const Plan& p, int wave) {
   if (S->kind == 0) return;
   if (!S->started.insert(wave).second) return;
+  if (!S->th.empty()) probe("wave_started_while_threads_run");
   for (size_t t = 1; t < p.threads.size(); t++) {
     if (p.threads[t].empty() || p.threads[t][0].c != wave) continue;
     if (S->moved_since_wave) probe("threads_started_after_move");
